@@ -50,6 +50,9 @@ func main() {
 		os.Exit(engine.RefOpMain())
 	case "transp":
 		os.Exit(engine.TranspMain(os.Args[2:]))
+	case "refkey":
+		log.SetOutput(io.Discard)
+		os.Exit(engine.RefKeyMain())
 	case "gen":
 		os.Exit(cmdGen(os.Args[2:]))
 	case "outs":
@@ -146,6 +149,7 @@ func cmdRun(args []string) int {
 	seed := fs.Uint64("seed", envSeed(), "VERIF_SEED")
 	workers := fs.Int("workers", runtime.NumCPU(), "worker processes")
 	count := fs.Uint64("count", 0, "number of runs (0 = tier default)")
+	offset := fs.Uint64("offset", 0, "first run index (default 0)")
 	evidence := fs.String("evidence", "", "evidence file to write")
 	replays := fs.String("replays", "/verif/replays", "replay directory")
 	known := fs.String("known", "/verif/known_findings.json", "known findings file")
@@ -180,7 +184,7 @@ func cmdRun(args []string) int {
 		wg.Add(1)
 		go func(w int) {
 			defer wg.Done()
-			a := []string{"worker", "-prop", *prop, "-tier", *tier, "-seed", fmt.Sprint(*seed), "-from", fmt.Sprint(w), "-stride", fmt.Sprint(W), "-count", fmt.Sprint(n),
+			a := []string{"worker", "-prop", *prop, "-tier", *tier, "-seed", fmt.Sprint(*seed), "-from", fmt.Sprint(*offset+uint64(w)), "-stride", fmt.Sprint(W), "-count", fmt.Sprint(*offset+n),
 				"-replays", *replays, "-known", *known, "-self", self,
 				"-distinct", filepath.Join(*scratch, fmt.Sprintf("distinct.%s.%d.bin", *prop, w)),
 				"-transp", filepath.Join(*scratch, fmt.Sprintf("transp.%s.%d.jsonl", *prop, w))}
@@ -254,14 +258,14 @@ func cmdRun(args []string) int {
 		for w := 0; w < W; w++ {
 			files = append(files, filepath.Join(*scratch, fmt.Sprintf("transp.%s.%d.jsonl", *prop, w)))
 		}
-		checked, msg := engine.RunTransp(*plain, files)
+		checked, msg := engine.RunTransp(*plain, self, files)
 		total.TranspChecked = checked
 		transpFail = msg
 	}
 	for w := 0; w < W; w++ {
 		os.Remove(filepath.Join(*scratch, fmt.Sprintf("transp.%s.%d.jsonl", *prop, w)))
 	}
-	if transpFail != "" {
+	if transpFail != "" && len(fails) == 0 {
 		fmt.Fprintln(os.Stderr, "INFRASTRUCTURE: instrumentation is not transparent:", transpFail)
 		return 2
 	}
